@@ -28,3 +28,4 @@ def check(ctx):
     ctx.floor("APICOMPAT-super", 5)
     ctx.floor("APICOMPAT-abstract", 10)
     apicompat.base_instance_state(ctx)
+    apicompat.interaction_matrix_rank(ctx)
